@@ -142,9 +142,18 @@ def run_case(case):
                 p_before = snapshot_params(p_in)
                 import jax.numpy as jnp
 
-                init_in = {k: jnp.asarray(np.asarray(v)) for k, v in a["init"].items()}
+                # the SAME mapping object is handed in on every call with this argument set
+                # (a user keeps one dict of initial states and simulates repeatedly)
+                if "_init_obj" not in a:
+                    a["_init_obj"] = {k: jnp.asarray(np.asarray(v)) for k, v in a["init"].items()}
+                init_in = a["_init_obj"]
                 df = fsim(p_in, initial_states=init_in, seed=int(a["seed"]))
                 got = golden.frame_to_arrays(df, f"sim{i}")
+                add("snapshots_compared")
+                if sorted(init_in) != sorted(a["init"]) or any(
+                        not np.array_equal(np.asarray(init_in[k]), np.asarray(a["init"][k])) for k in a["init"] if k in init_in):
+                    res["violations"].append({"key": "initial_states_modified", "what": f"call {h} (sim, arg set {i}): the initial_states mapping passed in was modified by the call"})
+                    a.pop("_init_obj")
             add("history_calls")
             add("snapshots_compared", 2)
             if snapshot_params(p_in) != p_before:
